@@ -14,8 +14,8 @@ import numpy as np
 
 from simphot import scenes
 from simphot.compare import diff, digest
-from simphot.kernel import (Inapplicable, Machine, Raised, Violation, call,
-                            dec, enc)
+from simphot.kernel import (Held, Inapplicable, Machine, Raised, Violation,
+                            call, dec, enc)
 
 RTOL = 1e-9
 
@@ -164,6 +164,7 @@ class PSFModelMachine(Machine):
         st.nshare = 1
         st.visited = {}          # share group -> set of cells evaluated
         st.neval = 0
+        st.held = Held(limit=12)     # arrays the models handed out
         return st
 
     # ------------------------------------------------------------------
@@ -195,7 +196,9 @@ class PSFModelMachine(Machine):
                                     'outside', 'line', 'scalar',
                                     'broadcast', 'border']),
                   'n': rng.randint(2, 6),
-                  'jit': [rng.uniform(-0.5, 0.5), rng.uniform(-0.5, 0.5)]}
+                  'jit': [rng.uniform(-0.5, 0.5), rng.uniform(-0.5, 0.5)],
+                  'layout': rng.pick(['c', 'c', 'c', 'f', 'strided',
+                                      'transposed'])}
             if rng.chance(0.15):
                 # the way fitters use a model: evaluate(x, y, *trial_params)
                 # with parameters that differ from the stored ones
@@ -214,6 +217,12 @@ class PSFModelMachine(Machine):
             return {'op': 'reject3d', 'actor': k}
         if r < 0.985:
             return {'op': 'decoy', 'actor': k}
+        if r < 0.995:
+            # forced photometry: a parameter is held fixed (no effect on
+            # what the model evaluates to, nor on its relatives)
+            return {'op': 'fix', 'actor': k,
+                    'name': rng.pick(['x_0', 'y_0', 'flux']),
+                    'value': rng.chance(0.8)}
         return self._gen_set(rng, st, k)
 
     def _gen_set(self, rng, st, k):
@@ -359,6 +368,17 @@ class PSFModelMachine(Machine):
         a = st.actors[k]
         m = a.model
         kind = op['op']
+        self._step(st, op, a, m, kind)
+        st.held.check(f'by {kind}')
+
+    def _step(self, st, op, a, m, kind):
+        if kind == 'fix':
+            out = call(lambda: setattr(getattr(m, op['name']), 'fixed',
+                                       bool(op['value'])))
+            if isinstance(out, Raised):
+                raise Violation('raises', 'fixed', repr(out))
+            st.stats.probe('parameter_fixed')
+            return
         if kind == 'set':
             nm, v = op['name'], op['value']
             if nm == 'xy':
@@ -483,6 +503,21 @@ class PSFModelMachine(Machine):
             st.stats.probe('evaluate_with_trial_parameters')
         else:
             x, y = self._coords(st, a, op)
+            lay = op.get('layout', 'c')
+            if np.ndim(x) == 2 and np.shape(x) == np.shape(y) and \
+                    lay != 'c':
+                # the same coordinates in another memory layout
+                if lay == 'f':
+                    x, y = np.asfortranarray(x), np.asfortranarray(y)
+                elif lay == 'transposed':
+                    x = np.ascontiguousarray(x.T).T
+                    y = np.asfortranarray(y)
+                else:
+                    bx = np.zeros((x.shape[0] * 2, x.shape[1] * 3))
+                    by = np.zeros_like(bx)
+                    bx[::2, ::3], by[::2, ::3] = x, y
+                    x, y = bx[::2, ::3], by[::2, ::3]
+                st.stats.probe('coordinates_not_c_contiguous')
             val = call(m, x, y)
         st.trace.add('eval', digest(val))
         if isinstance(val, Raised):
@@ -520,6 +555,7 @@ class PSFModelMachine(Machine):
             st.stats.probe('outside_grid')
         seen.add(cell)
         st.neval += 1
+        st.held.add('evaluate', val)
 
     def _check_knots(self, st, a, val, cell):
         flux = a.p['flux']
